@@ -88,6 +88,10 @@ def main():
     c.rule = "catalogue + %d random Hermitian models (<= %d modes) x partitions; non-trivial = at least one block larger than 1x1" % (nrand, 6 if thorough else 4)
     c.trusted = ["TLC", "harness c03 (residuals computed against the prepared matrices that TLC compares with the exact ones)", "Eigen for the residual arithmetic"]
     c.assumptions = ["residual and orthonormality tolerance 1e-9 relative to max|H|", "real build"]
+    # call histories of the documented workflow (spec/Workflow.tla): repeated prepare()/compute() are no-ops, a call changes the data of
+    # its own object only, and whatever the history, the finished object holds the data of the canonical linear order
+    import workflow
+    workflow.attach(c, {"H"}, 'Hamiltonian')
     c.finish()
 
 
